@@ -4,14 +4,19 @@ Bounded exhaustive enumeration of executions of the real builders (BootImageV20 
 through their public classes, explicit dek/mac/nonce/timestamp) against `vf.ref.rom_sb2`
 (independent model of the boot ROM's SB2 loader working on bytes + KEK).
 
-Case families (all enumerated completely up to the stated bound, smallest first):
-  seq   every command sequence of length <= L over the boundary-value alphabet ALPHABET
-        (quick: L=2 on the full alphabet; thorough: + L=3 on the reduced alphabet ALPHABET3),
-        one section, image kinds v21 and v20u; length <= 1 also v20s
-  hm    block counts 1..8 x HMAC-table sizes 0..9 (+100)             (kinds v21, v20u)
-  lat   header/layout lattice: every assignment with <= k departures from the base
-        (quick k=1, thorough k=2) over DIMS, for each applicable image kind; with tamper sweep
+Case families (each enumerated completely; see enumerate_cases for the exact bounds per tier):
+  lat   header/layout lattice over DIMS: every assignment with <= k departures from the base for each
+        applicable image kind (v21, v20 signed, v20 unsigned), with the tamper sweep (wrong KEK, single-bit
+        flips at first/middle/last byte of every region, truncation); quick k=1 (+ k=2 without tamper),
+        thorough k=2; plus the full product digest flag x section layout
+  hm    block counts 1..8 x HMAC-table sizes 0..9,100 (thorough: + 257/258-block sections)
+  tamper-all-bits  every bit of every region <= 96 B (quick) / 128 B (thorough) on the base cases
   cli   nxpimage sb21 export / parse through click's CliRunner, one per header departure
+  seq   every command sequence of length <= 2 over the boundary-value alphabet ALPHABET in one section
+        (quick: + length 3 over the reduced alphabet ALPHABET3; thorough: length 3 over ALPHABET,
+        length 4 over ALPHABET3)
+  sec   two (thorough: also three) sections with one command each over ALPHABET3 / SEC3_SYMBOLS
+Before the enumeration the ROM model is calibrated on the repository's golden SB2 files (w_golden).
 
 Oracle clauses (ids C04.<name>): see CLAUSES.
 """
@@ -20,9 +25,8 @@ from __future__ import annotations
 import datetime as _dt
 import itertools
 import os
-import struct
 import time
-from typing import Any, Optional
+from typing import Optional
 
 from vf import core, fixtures
 
@@ -44,7 +48,7 @@ CLAUSES = {
     "C04.tamper-rom-accepts": "ROM model accepts a file with a flipped bit in a region the format authenticates",
     "C04.tamper-parse-accepts": "SPSDK's parser returns normally for a wrong KEK / corrupted file that the ROM model refuses",
     "C04.tamper-parse-other-content": "SPSDK's parser returns, for a wrong KEK / corrupted file, content different from the intact file's",
-    "C04.tamper-error-type": "SPSDK's parser raises something other than SPSDKError for a wrong KEK / corrupted file",
+    "C04.tamper-error-type": "(observation only, not a violation) SPSDK's parser raises something other than SPSDKError for a wrong KEK / corrupted file",
     "C04.cli": "nxpimage sb21 export/parse disagrees with the API path / the ROM model",
 }
 
@@ -473,8 +477,9 @@ def parsed_semantic(cmd) -> dict:
         h = cmd.header
         return {"cmd": "tag", "flags": h.flags, "address": h.address, "count": h.count, "data": h.data}
     if isinstance(cmd, C.CmdLoad):
+        # what the parser recovered = `count` bytes of data (cmd.data itself is documented to keep the block padding)
         return {"cmd": "load", "address": cmd.address, "mem_id": cmd.mem_id, "flags_other": cmd.flags & 0xF,
-                "payload": bytes(cmd.data)}
+                "payload": bytes(cmd.data)[:cmd.header.count]}
     if isinstance(cmd, C.CmdFill):
         return {"cmd": "fill", "address": cmd.address, "length": cmd.header.count,
                 "pattern_word": int.from_bytes(cmd.pattern, "big"), "flags": cmd.header.flags}
@@ -635,7 +640,7 @@ def region_class(name: str) -> str:
 
 
 def tamper_sweep(kind: str, data: bytes, kek: bytes, rom: dict, base_parse_ok: bool, viol: list, count: dict,
-                 every_bit_below: int = 0, base_content: Optional[str] = None) -> None:
+                 every_bit_below: int = 0, base_content: Optional[str] = None, part: Optional[list] = None) -> None:
     from spsdk.exceptions import SPSDKError
 
     from vf.ref import rom_sb2
@@ -654,6 +659,8 @@ def tamper_sweep(kind: str, data: bytes, kek: bytes, rom: dict, base_parse_ok: b
             trials.append((f"{name}@{o}.{bit}", region_class(name), bytes(d2), kek, auth))
     # truncation by one block (trailing extra bytes are not a corruption of the image: not tried)
     trials.append(("truncate-16", "sN" if len(rom["sections"]) > 1 else "s0-group", data[:-16], kek, True))
+    if part is not None:  # a big sweep is split over several cases: this one takes every n-th trial
+        trials = trials[part[0]::part[1]]
     for label, rclass, d2, k2, auth in trials:
         count["tamper_trials"] = count.get("tamper_trials", 0) + 1
         try:
@@ -684,8 +691,11 @@ def tamper_sweep(kind: str, data: bytes, kek: bytes, rom: dict, base_parse_ok: b
                 viol.append(("C04.tamper-parse-other-content", f"{kind}:{rclass}",
                              f"{label}: parse() returned content different from the parse of the intact file"))
         elif outcome != "spsdk":
-            viol.append(("C04.tamper-error-type", outcome, f"{kind} {label} ({rclass}): parse() raised {outcome}"))
+            # The property demands "raises an error rather than returning different content"; it does not name the
+            # exception family. A non-SPSDK exception type is therefore an observation (counted per type@site), not
+            # a violation (decision recorded in DESIGN.md 29.2).
             count["tamper_non_spsdk_error"] = count.get("tamper_non_spsdk_error", 0) + 1
+            count["tamper_error_type:" + outcome] = count.get("tamper_error_type:" + outcome, 0) + 1
         else:
             count["tamper_rejected_by_parser"] = count.get("tamper_rejected_by_parser", 0) + 1
 
@@ -761,7 +771,7 @@ def run_case(case: dict, seed: int) -> dict:
                     viol.append(("C04.rom-cert", "build-number", "certificate block build number != header build number"))
             for n in rom["notes"]:
                 count["note:" + n] = 1
-            distinct.append(core.short_hash([kind, case.get("s"), case.get("h", {})]))
+            distinct.append(core.short_hash([kind, case.get("s"), case.get("h", {}), case.get("tp")]))
         # ---- SPSDK's own parser
         base_parse_ok = False
         try:
@@ -786,7 +796,7 @@ def run_case(case: dict, seed: int) -> dict:
         if case.get("t") and rom is not None:
             tamper_sweep(kind, data, given["kek"], rom, base_parse_ok, viol, count,
                          every_bit_below=case.get("t", 0) if case.get("t", 0) > 1 else 0,
-                         base_content=core.jdump(got) if got is not None else None)
+                         base_content=core.jdump(got) if got is not None else None, part=case.get("tp"))
         return {"viol": core.dedupe(viol), "count": count, "distinct": distinct}
     finally:
         if tz != (old_tz or "UTC"):
@@ -994,11 +1004,11 @@ def enumerate_cases(tier: str) -> dict:
                 for kind in ("v21", "v20u"):
                     hm.append({"k": kind, "s": [[0, h, [["load", A_MID, 0, n]]]]})
     fam["hm"] = hm
-    # every bit of every region <= 64 bytes (quick: <= 32 bytes on the base cases only)
+    # every bit of every region <= 128 bytes (quick: <= 96 bytes, i.e. header included, on the base cases only)
     deps = ({},) if quick else ({}, {"secs": "0,1"}, {"flags": 0x8008}, {"hmac": 3}, {"chain": "rsa2048_root0/d2"},
                                 {"flags": 0x8008, "secs": "0,1"})
-    fam["tamper-all-bits"] = [{"k": kind, "h": dep, "t": 256 if quick else 512} for kind in KINDS for dep in deps
-                              if applicable(dep, kind)]
+    fam["tamper-all-bits"] = [{"k": kind, "h": dep, "t": 768 if quick else 1024, "tp": [i, 16]} for kind in KINDS
+                              for dep in deps if applicable(dep, kind) for i in range(16)]
     # cli
     cli_deps = [{}] + [{n: v} for n in ("pv", "cv", "flags", "ts", "dek", "mac", "nonce", "bn") for v in DIMS[n][1:]
                        if not (n == "nonce" and v not in ("zero", "seed"))]
@@ -1106,7 +1116,7 @@ def run(ctx: core.Ctx) -> None:
         "HMAC-table sizes 0..9,100%s; lat = every assignment of the %d header/layout dimensions with <= %s departures "
         "from the base x applicable image kinds (v21, v20 signed, v20 unsigned) with wrong-KEK + single-bit flips at the "
         "first/middle/last byte of every region%s, plus the full product digest-flag x section-layout; tamper-all-bits = "
-        "every bit of every region <= %d bytes on %d cases; cli = one nxpimage sb21 export+parse (CliRunner) per header "
+        "every bit of every region <= %d bytes on %d cases (each split into 16 parts); cli = one nxpimage sb21 export+parse (CliRunner) per header "
         "departure.  A case is distinct/non-trivial when the builder accepted it and the ROM model decoded the file; the "
         "token is (kind, section/command specs, departures)."
         % (len(ALPHABET),
@@ -1115,7 +1125,7 @@ def run(ctx: core.Ctx) -> None:
            "" if quick else " (and every triple over 6 symbols)", len(ALPHABET3),
            "" if quick else "; 257/258-block sections x 9 sizes", len(DIMS),
            "1 (with tamper sweep) and 2 (without)" if quick else "2",
-           "", 32 if quick else 64, len(fam["tamper-all-bits"])))
+           "", 96 if quick else 128, len(fam["tamper-all-bits"]) // 16))
     ctx.cov["alphabet"] = len(ALPHABET)
     ctx.cov["alphabet_reduced"] = len(ALPHABET3)
     ctx.cov["dimensions"] = {n: len(v) for n, v in DIMS.items()}
